@@ -228,3 +228,31 @@ Theorem slash_repeated :
   Inv s0 /\ common_pool s3 = 1200 /\ bal (active (acct s3 1)) = 0 /\ bal (debonding (acct s3 1)) = 0 /\ total_supply s3 = 1200.
 Proof. exact slash_repeated_example. Qed.
 Print Assumptions slash_repeated.
+
+(* ---- parameter changes (governance ChangeParameters taking effect) between operations: every
+   operation carries the parameters in force when it runs; the change itself touches no
+   balance (parameters are not part of the ledger state) ---- *)
+Theorem run_params_preserves_inv : forall ops s, Inv s -> Inv (run_params s ops).
+Proof. exact run_params_preserves_inv_l. Qed.
+Print Assumptions run_params_preserves_inv.
+
+Theorem supply_exact_params : forall ops s, Inv s ->
+  total_supply s = total_supply (run_params s ops) + burned_run_params s ops.
+Proof. exact supply_run_params_l. Qed.
+Print Assumptions supply_exact_params.
+
+(* fee disbursement at begin and end of block conserves for ALL weights, zero sums included *)
+Theorem fee_disbursement_conserves : forall p s pr n vs, Inv s ->
+  (Inv (snd (fees_vq p s pr n vs)) /\ total_supply (snd (fees_vq p s pr n vs)) = total_supply s) /\
+  (Inv (snd (fees_p p s pr)) /\ total_supply (snd (fees_p p s pr)) = total_supply s).
+Proof. exact fee_disbursement_conserves_l. Qed.
+Print Assumptions fee_disbursement_conserves.
+
+(* with vote + next-propose weight = 0, fees still pending from the previous block all go to
+   the common pool (nothing is dropped) *)
+Theorem fees_vq_zero_weights : forall p s pr n vs,
+  vq_done s = false -> p_w_vote p + p_w_next p = 0 -> n <> 0 ->
+  snd (fees_vq p s pr n vs) = with_common (with_lbf s (last_block_fees s) true) (common_pool s + last_block_fees s)
+  /\ fst (fees_vq p s pr n vs) = ROk.
+Proof. exact fees_vq_zero_weights_l. Qed.
+Print Assumptions fees_vq_zero_weights.
